@@ -52,9 +52,9 @@ package kafka
 //@   requires 0 <= tp && tp <= 65535 && 0 <= ti && ti < 140737488355328 && event.SourceID == ti * 65536 + tp
 //@   requires 0 <= re && re <= 65535 && 0 <= ro && ro < 140737488355328 && event.Offset == ro * 65536 + re
 //@   requires ti < len(p.config.Topics)
-//@   assert at "p.client.MarkCommitOffsets(offsets)" index == ti && partition == tp && offset.Offset == ro + 1 && offset.Epoch == re
 //@   callee MarkCommitOffsets(o)
 //@     requires freshin(o)
+//@     requires index == ti && partition == tp && offset.Offset == ro + 1 && offset.Epoch == re
 //@     pure
 
 // (The marks are handed over in a map built for this one call - `fresh` - so that it
